@@ -609,7 +609,9 @@ func c13Containers(c *mc.Ctx) {
 }
 
 var c13Huge = func() []*big.Int {
-	p := func(k uint, d int64) *big.Int { return new(big.Int).Add(new(big.Int).Lsh(big.NewInt(1), k), big.NewInt(d)) }
+	p := func(k uint, d int64) *big.Int {
+		return new(big.Int).Add(new(big.Int).Lsh(big.NewInt(1), k), big.NewInt(d))
+	}
 	return []*big.Int{p(495, -1), p(503, 0), p(504, -1), p(504, 0), p(512, 7), p(520, 0x12345600), new(big.Int).Neg(p(600, 0)), p(1024, -1), big.NewInt(3)}
 }()
 
